@@ -1,0 +1,101 @@
+//go:build verif
+
+package lexer
+
+// Contracts for the deductive verifier in /verif (govc). Comment-only: no code is added.
+
+// ---- C05: every keyword and operator spelling denotes the token named after it. The table is a
+// package-level map literal; each entry is a syntactic obligation (the literal maps the spelling
+// to that constant, and the variable is never assigned or has its address taken outside init).
+
+//@ global tokens maps "," Comma
+//@ global tokens maps "." Dot
+//@ global tokens maps "{" OpenBrace
+//@ global tokens maps "}" CloseBrace
+//@ global tokens maps "=" Eq
+//@ global tokens maps "!=" NotEq
+//@ global tokens maps "=~" Re
+//@ global tokens maps "!~" NotRe
+//@ global tokens maps "|=" PipeExact
+//@ global tokens maps "|~" PipeMatch
+//@ global tokens maps "|" Pipe
+//@ global tokens maps "unwrap" Unwrap
+//@ global tokens maps "(" OpenParen
+//@ global tokens maps ")" CloseParen
+//@ global tokens maps "by" By
+//@ global tokens maps "without" Without
+//@ global tokens maps "bool" Bool
+//@ global tokens maps "[" OpenBracket
+//@ global tokens maps "]" CloseBracket
+//@ global tokens maps "offset" Offset
+//@ global tokens maps "on" On
+//@ global tokens maps "ignoring" Ignoring
+//@ global tokens maps "group_left" GroupLeft
+//@ global tokens maps "group_right" GroupRight
+//@ global tokens maps "or" Or
+//@ global tokens maps "and" And
+//@ global tokens maps "unless" Unless
+//@ global tokens maps "+" Add
+//@ global tokens maps "-" Sub
+//@ global tokens maps "*" Mul
+//@ global tokens maps "/" Div
+//@ global tokens maps "%" Mod
+//@ global tokens maps "^" Pow
+//@ global tokens maps "==" CmpEq
+//@ global tokens maps ">" Gt
+//@ global tokens maps ">=" Gte
+//@ global tokens maps "<" Lt
+//@ global tokens maps "<=" Lte
+//@ global tokens maps "json" JSON
+//@ global tokens maps "regexp" Regexp
+//@ global tokens maps "logfmt" Logfmt
+//@ global tokens maps "unpack" Unpack
+//@ global tokens maps "pattern" Pattern
+//@ global tokens maps "label_format" LabelFormat
+//@ global tokens maps "line_format" LineFormat
+//@ global tokens maps "ip" IP
+//@ global tokens maps "decolorize" Decolorize
+//@ global tokens maps "distinct" Distinct
+//@ global tokens maps "drop" Drop
+//@ global tokens maps "keep" Keep
+//@ global tokens maps "rate" Rate
+//@ global tokens maps "rate_counter" RateCounter
+//@ global tokens maps "count_over_time" CountOverTime
+//@ global tokens maps "bytes_rate" BytesRate
+//@ global tokens maps "bytes_over_time" BytesOverTime
+//@ global tokens maps "avg_over_time" AvgOverTime
+//@ global tokens maps "sum_over_time" SumOverTime
+//@ global tokens maps "min_over_time" MinOverTime
+//@ global tokens maps "max_over_time" MaxOverTime
+//@ global tokens maps "stdvar_over_time" StdvarOverTime
+//@ global tokens maps "stddev_over_time" StddevOverTime
+//@ global tokens maps "quantile_over_time" QuantileOverTime
+//@ global tokens maps "first_over_time" FirstOverTime
+//@ global tokens maps "last_over_time" LastOverTime
+//@ global tokens maps "absent_over_time" AbsentOverTime
+//@ global tokens maps "vector" Vector
+//@ global tokens maps "sum" Sum
+//@ global tokens maps "avg" Avg
+//@ global tokens maps "max" Max
+//@ global tokens maps "min" Min
+//@ global tokens maps "count" Count
+//@ global tokens maps "stddev" Stddev
+//@ global tokens maps "stdvar" Stdvar
+//@ global tokens maps "bottomk" Bottomk
+//@ global tokens maps "topk" Topk
+//@ global tokens maps "sort" Sort
+//@ global tokens maps "sort_desc" SortDesc
+//@ global tokens maps "label_replace" LabelReplace
+//@ global tokens maps "bytes" BytesConv
+//@ global tokens maps "duration" DurationConv
+//@ global tokens maps "duration_seconds" DurationSecondsConv
+
+//@ scope token.go
+
+//@ func (TokenType).IsFunction
+//@   modifies nothing
+//@   ensures[exact-set] ret0 == (tt == Rate || tt == RateCounter || tt == CountOverTime || tt == BytesRate || tt == BytesOverTime ||
+//@       tt == AvgOverTime || tt == SumOverTime || tt == MinOverTime || tt == MaxOverTime || tt == StdvarOverTime || tt == StddevOverTime ||
+//@       tt == QuantileOverTime || tt == FirstOverTime || tt == LastOverTime || tt == AbsentOverTime || tt == Vector ||
+//@       tt == Sum || tt == Avg || tt == Max || tt == Min || tt == Count || tt == Stddev || tt == Stdvar || tt == Bottomk || tt == Topk ||
+//@       tt == Sort || tt == SortDesc || tt == LabelReplace || tt == BytesConv || tt == DurationConv || tt == DurationSecondsConv || tt == IP)
